@@ -33,11 +33,15 @@ _SC = [0]
 
 
 def make_scene(rng, tier):
+    _SC[0] += 1
     K = int(rng.integers(2, 4))
     D = int(rng.integers(K + 1, 9))
     Fs = [33, 65] if tier == 'quick' else [33, 65, 257]
     F = int(Fs[int(rng.integers(0, len(Fs)))])
     T = int(rng.integers(60, 201)) if tier != 'quick' else int(rng.integers(60, 121))
+    shipped = _SC[0] % 10 == 9
+    if shipped:
+        F, T = 257, 60                   # the shipped configuration DHTVPermutationAlignment.from_stft_size(512)
     # activity partition over frames, every source active in >= 15 % of the frames
     while True:
         lab = rng.integers(0, K, size=T)
@@ -56,10 +60,13 @@ def make_scene(rng, tier):
         images[k][:, sel, :] = s[:, sel, None] * A[:, k, None, :]
     clean = images.sum(0)
     sig_pow = np.mean(np.abs(clean) ** 2)
-    noise = mm.crandn(rng, (F, T, D)) * np.sqrt(sig_pow / 2 * 1e-4)      # -40 dB
+    noise_db = [40, 55, 70, 80][(_SC[0] // 3) % 4]                               # "at least 40 dB below the sources"
+    noise = mm.crandn(rng, (F, T, D)) * np.sqrt(sig_pow / 2 * 10.0 ** (-noise_db / 10))
     y = clean + noise
     # DHTV plan: 512 default for F = 257, custom plans with shift <= width / 3 otherwise
-    if F == 257:
+    if F == 257 and shipped:
+        plan = 'from_stft_size(512)'
+    elif F == 257:
         plan = dict(stft_size=512, segment_start=70, segment_width=100, segment_shift=20)
     else:
         width = int(rng.choice([12, 15, 18]))
@@ -67,8 +74,12 @@ def make_scene(rng, tier):
                     segment_shift=int(rng.integers(1, width // 3 + 1)))
     # per-frequency permutation field: 70 % majority (identity) in the first segment, arbitrary elsewhere
     perm = np.stack([rng.permutation(K) for _ in range(F)])
-    seg = np.arange(plan['segment_start'], plan['segment_start'] + plan['segment_width'])
+    pl = dict(segment_start=70, segment_width=100) if isinstance(plan, str) else plan
+    seg = np.arange(pl['segment_start'], pl['segment_start'] + pl['segment_width'])
     keep = rng.permutation(len(seg))[:int(np.ceil(0.7 * len(seg))) + 1]
+    if isinstance(plan, str):
+        # block structured field (still inside the domain): the same swap on every bin outside the kept part of the first segment
+        perm[:] = rng.permutation(K)
     perm[seg[keep]] = np.arange(K)
     blur = 0.2
     onehot = np.eye(K)[lab].T                                   # (K, T)
@@ -80,9 +91,8 @@ def make_scene(rng, tier):
     # the class order of the start is arbitrary as a whole too: the oracle alignment has a non-trivial permutation to undo
     init = init[:, rng.permutation(K)]
     metric = str(rng.choice(['cos', 'cos', 'euclidean', 'multiply']))       # every similarity metric the aligner documents
-    _SC[0] += 1
     # recording level: the scene is defined up to its level (quiet / loud recordings, integer PCM scale)
-    level = [1.0, 1e-4, 1.0, 3e4][_SC[0] % 4]
+    level = [1.0, 1e-4, 1.0, 3e4][(_SC[0] // 2) % 4]
     y, images, noise = y * level, images * level, noise * level
     # global alignment as in examples/mixture_model_example.ipynb (masked observation against the source images, complex)
     # or on the masks themselves
@@ -108,16 +118,23 @@ def run_chain(sc, model_name, iterations=20):
         r0 = np.random.default_rng(F * T)
         m0 = r0.random((K, F0, 12))
         dhtv.calculate_mapping(m0 / m0.sum(0, keepdims=True))
-        for k_, v_ in sc['plan'].items():
+        for k_, v_ in (sc['plan'] if not isinstance(sc['plan'], str) else
+                       dict(stft_size=512, segment_start=70, segment_width=100, segment_shift=20)).items():
             setattr(dhtv, k_, v_)
     else:
-        dhtv = DHTVPermutationAlignment(main_iterations=20, sub_iterations=2, similarity_metric=sc.get('metric', 'cos'), **sc['plan'])
+        if isinstance(sc['plan'], str):
+            dhtv = DHTVPermutationAlignment.from_stft_size(512)
+        else:
+            dhtv = DHTVPermutationAlignment(main_iterations=20, sub_iterations=2, similarity_metric=sc.get('metric', 'cos'), **sc['plan'])
     mapping = dhtv.calculate_mapping(mask)
     aligned = dhtv.apply_mapping(mask, mapping)
     oracle = OraclePermutationAlignment()
     if sc.get('oracle') == 'signals':
         est = (aligned * y[None, :, :, 0]).reshape(K, F * T)
         refsig = np.asarray(sc['images'])[:, :, :, 0].reshape(K, F * T)
+        # the estimate handed to the oracle is never exact in practice (soft masks, residual noise): 5 % estimation error
+        r_ = np.random.default_rng(F * T + K)
+        est = est + 0.05 * np.sqrt(np.mean(np.abs(est) ** 2)) * mm.crandn(r_, est.shape)
         gperm = oracle.calculate_mapping(est, refsig)
         final = aligned[np.asarray(gperm).reshape(-1)]
     else:
@@ -148,6 +165,24 @@ def evaluate(rp, rng):
         consistent = bool((order == order[0]).all())
         return ('aligned posteriors: MAP class equals the true source in only %.2f %% of the time-frequency points (< 99 %%); '
                 'class order frequency-consistent after DHTV: %s' % (100 * acc, consistent)), 'pipeline:map:%s' % name, None
+    if sc.get('oracle') == 'signals':
+        # the global alignment step on its own: every relabelling of the (noisy, complex) estimate is undone
+        from pb_bss.permutation_alignment import OraclePermutationAlignment
+        y_ = np.asarray(sc['y'])
+        est = (aligned * y_[None, :, :, 0]).reshape(K, F * T)
+        refsig = np.asarray(sc['images'])[:, :, :, 0].reshape(K, F * T)
+        r_ = np.random.default_rng(F * T + K + 1)
+        est = est + 0.05 * np.sqrt(np.mean(np.abs(est) ** 2)) * mm.crandn(r_, est.shape)
+        truth_k = [int(np.argmax([np.sum(aligned[k] * (sc['lab'] == j)[None, :]) for j in range(K)])) for k in range(K)]
+        perm0 = np.argsort(truth_k)                      # est[perm0[j]] belongs to source j (known from the labels)
+        for trial in range(4):
+            pp = r_.permutation(K)
+            g = np.asarray(OraclePermutationAlignment().calculate_mapping(est[pp], refsig)).reshape(-1)
+            want = np.argsort(pp)[perm0]
+            if not np.array_equal(g, want):
+                return ('oracle global alignment on the masked observation (complex signals, 5 %% estimation error): estimate '
+                        'relabelled by %s gives mapping %s, the source order requires %s' % (pp.tolist(), g.tolist(), want.tolist())), \
+                    'pipeline:global-oracle:%s' % name, None
     # beamforming: mask-based PSDs, every listed beamformer, SIR per source
     Y = np.transpose(sc['y'], (0, 2, 1))                          # (F, D, T)
     images = np.transpose(sc['images'], (0, 1, 3, 2))             # (K, F, D, T)
